@@ -152,6 +152,10 @@ pub fn c18(sc: &Scenario, rr: &RunResult) -> Vec<Violation> {
     if !out.is_empty() {
         return out;
     }
+    // the bound is stated for adaptive batching only
+    if !matches!(sc.bm, Bm::Adaptive(..) | Bm::Default) {
+        return out;
+    }
     let Some(d_us) = sc.bm.max_delay_us() else { return out };
     let b = boundaries(sc);
     // "a small multiple of the configured maximum delay per block boundary": 2 x per boundary
